@@ -297,6 +297,14 @@ def h_int(ip, st, args, kw, node):
         cv = x.const_value()
         if cv is not None:
             return Poly.const(int(cv))
+        # int(parameter): the value is truncated - unless the parameter is one of those that denote integers (sizes, counts,
+        # indices).  Everything else the package passes to int() is integer valued already (extents, shapes, floors).
+        a_ = x.single_atom()
+        if a_ is not None and a_[0] == 'sym' and a_[1] not in nf.INTEGER_SYMS and getattr(ip, 'cur', None) is not None \
+                and a_[1] in (ip.cur.param_names() if hasattr(ip.cur, 'param_names') else ()) \
+                and not any(k in a_[1].lower() for k in ('shape', 'size', 'order', 'index', 'count', 'num', 'nrow', 'ncol', 'rings', 'oversample',
+                                                          'factor', 'seed', 'dim', 'npix', 'n_')) and len(a_[1]) > 2:
+            return app('trunc', x)
         return x
     return P(x)
 
